@@ -34,8 +34,11 @@ CHECKS = {
         text="Sibling order (kids) and entry order (mem) of Library.tla for the 2.x family: create_*_after lands immediately "
              "after the given sibling, un-positioned create/move lands among the new siblings, OrderStable on every step; all "
              "transitions of the bounded graphs replayed on all seven 2.x schemas with root_crates()/children()/tracks() "
-             "compared as sequences by TLC.",
-        design="§7 C09",
+             "compared as sequences by TLC. V2Store.tla models the stored rows (Playlist / PlaylistEntity with nextListId / "
+             "nextEntityId chains, triggers and UNIQUE constraints folded into statements, BEGIN/COMMIT, Fail(k)); TLC checks the chain "
+             "invariants and refinement into Library.tla; TraceV2Store requires the rows an independent reader finds after every call of "
+             "random histories to be exactly the rows the model predicts.",
+        design="§7 C09, §13.6",
         note="bounded as C07/C08; the 2.x table API level (playlist_table / playlist_entity_table) is covered by C18's check; " + TRUST,
         technique="TLA+ spec + TLC model checking + replay of every transition + TLC trace validation"),
     "C16": dict(
@@ -43,8 +46,13 @@ CHECKS = {
         text="Library.tla has Observe/Reopen actions that leave the state unchanged; the trace spec (NoWrite) requires of the "
              "observation phase after every call: no non-read-only statement stepped (link-level sqlite3 shim), "
              "sqlite3_total_changes unchanged, digest of every table unchanged, repeated observation identical, and on disk "
-             "directory listing + file contents unchanged, including database_exists() and load_database().",
-        design="§7 C16",
+             "directory listing + file contents unchanged, including database_exists() and load_database(). Track level: all getters "
+             "and snapshot() of live tracks and of handles to removed tracks under the same rule (TraceTrackFields!NoWrite), also on 2.x "
+             "tracks holding foreign blobs planted behind the library's back (TraceTrackBlobs: the planted payload must still be there). "
+             "Table level: every read function of track_table (48 per-column getters, get, exists, all_ids), playlist_table, "
+             "playlist_entity_table, change_log_table and information_table under the same rule (TraceTableApi, TraceV2Table, "
+             "TraceChangeLog).",
+        design="§7 C16, §13.10",
         note="observers = all public getters/listings/lookups of database, crate, track used by the driver; " + TRUST,
         technique="TLA+ spec + TLC trace validation of instrumented observation phases (statement-level shim)"),
 }
@@ -64,8 +72,9 @@ CHECKS.update({
         text="RawStore.tla states, per schema family, how the raw tables must store the abstract state (three redundant crate "
              "encodings of 1.x, sibling/entity chains of 2.x, derived track columns, no dangling rows, trackCount) plus integrity_check, "
              "foreign_key_check and verify(); an independent reader dumps the rows after every call and TLC evaluates the invariant "
-             "in every trace state.",
-        design="§7 C11",
+             "in every trace state. For the 2.x family the same traces are also validated against the storage-layer model "
+             "(TraceV2Store): ids, titles, parents, next links and AUTOINCREMENT counters must be exactly the predicted ones.",
+        design="§7 C11, §13.6",
         note="raw rows read through the plain SQLite C API on the library's own connection; blobs are judged by C02/C04; " + TRUST,
         technique="TLA+ store invariants (RawStore.tla) evaluated by TLC on raw rows logged after every call"),
     "C14": dict(
@@ -73,8 +82,13 @@ CHECKS.update({
         text="Library.tla's Failed action (throw, UNCHANGED state); for every call of every replayed history, every position k of a "
              "failing SQL statement is enumerated exhaustively by the link-level shim (k = 1..n, reads/writes/BEGIN/COMMIT); TLC "
              "validates that each faulted attempt throws, changes neither the observation nor the table digest, and that the "
-             "history continues to conform.",
-        design="§7 C14",
+             "history continues to conform. On the model side V2Store.tla injects a failure at every statement of every call "
+             "and TLC checks that the abstraction takes a Library!Failed step (refinement); on 2.x traces TraceV2Store requires a "
+             "faulted attempt to leave exactly the rows it found. Crash points: on libraries on disk every call is also attempted in a "
+             "forked process that dies right before its k-th statement (all k); the reloaded library must show the unchanged state "
+             "or - once the tables differ - the complete effect of the call (TraceLibrary 'crash' records). TraceTxn states the "
+             "transaction discipline (at most one atomic unit per call) on the statement log of every complete call.",
+        design="§7 C14, §13.6, §13.8, §13.11",
         note="a failing statement has no effect of its own; ROLLBACK (the recovery action) is not failed; " + TRUST,
         technique="TLA+ spec + exhaustive statement-level fault enumeration + TLC trace validation"),
 })
@@ -148,9 +162,10 @@ CHECKS.update({
     "C03": dict(
         category="model_checking",
         text="EngineFormat!Encodable states which values each format can hold; for every enumerated and seed-chosen value (arbitrary double "
-             "bit patterns, labels of 0..300 bytes, 0..12 entries, larger grids / waveforms) TLC requires: encodable => encode and decode "
-             "succeed and give the value back (-1 offsets of 1.x being the only values that read back absent); not encodable => the "
-             "encoder throws.",
+             "bit patterns, labels of 0..300 bytes, 0..12 entries, larger grids / waveforms, payload lengths on and next to multiples of "
+             "the 16 KiB chunk of the compression loop) TLC requires: encodable => encode and decode succeed and give the value back (-1 "
+             "offsets of 1.x being the only values that read back absent); not encodable => the encoder throws. DeflateLoop.tla models "
+             "the chunk loop of zlib_compress (Z_FINISH only after all input was handed over, termination).",
         design="§7 C03",
         note="1.x overview waveforms are generated with opacity 255 (the format stores none); " + TRUST,
         technique="TLA+ spec (Encodable / Norm) + TLC enumeration + TLC trace validation of encode-decode round trips"),
@@ -159,10 +174,13 @@ CHECKS.update({
         text="Foreign payloads for the five 2.x blob types are produced by the specification's encoder with contents the library never "
              "writes (odd counts, flag bytes 0..255, unknown fields, different grids, trailing bytes) and by seed-chosen mutation; the "
              "library decodes and re-encodes them and TLC requires byte-for-byte equality, the boolean main-cue-adjusted byte alone being "
-             "normalised.",
-        design="§7 C04",
-        note="the setter part (single-field setters on tracks) is covered through C06's frame on snapshot level, not on raw blob bytes; " + TRUST,
-        technique="TLA+ spec of the layouts + spec-generated foreign blobs + TLC trace validation of decode/re-encode"),
+             "normalised. Setter part (TraceTrackBlobs): such blobs are stored into 2.x tracks behind the library's back, single-field "
+             "setters are called, and TLC requires untouched blob columns to stay byte-identical on all tracks and the addressed column "
+             "to equal Enc(kind, value with only the addressed field changed).",
+        design="§7 C04, §13.7",
+        note="for key, sample count, beat grid and waveform setters only the bytes outside the field are compared; " + TRUST,
+        technique="TLA+ spec of the layouts + spec-generated foreign blobs + TLC trace validation of decode/re-encode and of setters on "
+                  "tracks holding foreign blobs"),
     "C05": dict(
         category="exploration",
         text="InflateLoop.tla models the chunk loop of zlib_uncompress against an abstract inflate; TLC proves hand-off safety and "
@@ -197,17 +215,36 @@ CHECKS.update({
         text="TableApi.tla states the row-store contract (RowOK, SetColOK, database-maintained columns, errors for missing rows); every "
              "column of the Track table is written alone and through whole rows whose columns hold pairwise distinct values, with every "
              "optional present and absent, plus all short operation sequences from MCTableApi, on all seven 2.x schemas; TLC validates "
-             "rows and per-column accessors after every call.",
-        design="§7 C18",
+             "rows and per-column accessors after every call. playlist_table / playlist_entity_table: every transition of MCV2Table "
+             "(add / update at every legal parent and position, remove, add_back, remove, clear) is executed and TraceV2Table requires "
+             "outcome, stored rows and every read function to be what the storage-layer model V2Rows predicts (the two boolean "
+             "columns as written). change_log_table / information_table: every transition of ChangeLog.tla (track writes feeding the log "
+             "through the schema's triggers, add, played-indicator update) and TraceChangeLog requires outcome, rows and all / after(k) / "
+             "last / get to be what ChangeLog!Apply predicts.",
+        design="§7 C18, §13.9, §13.10",
         note="time points at whole-second resolution; blob columns compared by digest; columns a schema lacks are unconstrained; " + TRUST,
         technique="TLA+ row-store spec + TLC-enumerated operation sequences + replay + relational TLC trace validation"),
 })
 
+CHECKS.update({
+    "C12": dict(
+        category="translation_validation",
+        text="SchemaRef.tla defines a schema as an inventory (every table, index, view and trigger of every database file with its "
+             "definition as a token sequence: whitespace, comments and identifier quoting dropped) and what a difference is; the "
+             "specification of a schema creator is `Create(v) = Reference(v)`. Every one of the 57 reference dumps is hydrated, a library "
+             "of the version it loads as is created on disk and as a temporary database, both inventories and the version rows are read "
+             "through the plain SQLite C API, and TLC (TraceSchemaRef) requires equal inventories, equal version numbers, verify() = ok, "
+             "equal version_name(), reload = the version requested, and agreement of all creations of one version. There are no "
+             "transitions to explore here - TLC is the oracle of a translation validation, which is the honest level for a static "
+             "artefact comparison.",
+        design="§7 C12, §13.13",
+        note="versions without a reference dump are listed, not judged; SQLite's own objects (sqlite_sequence, automatic indices) are "
+             "not part of an inventory; the tokeniser (the abstraction function) lives in tools/schemaref.py; " + TRUST,
+        technique="TLA+ inventory spec + trace validation of created-vs-reference schemas by TLC"),
+})
+
 NOT_YET = "check not built yet (work in progress)"
-NA = {
-    "C12": "static comparison of two DDL texts modulo whitespace/quoting: no state, no transitions, nothing for TLC to explore "
-           "(DESIGN.md §7 C12); residual coverage via C10/C11/C13/C17",
-}
+NA = {}
 
 
 def main():
@@ -246,6 +283,10 @@ def main():
             {"name": "tlc", "path": "/opt/veriftools/tla/tla2tools.jar", "serves_properties": sorted(CHECKS),
              "kind_free_text": "explicit-state model checker for TLA+; used for bounded model checking of the specs, for generating "
                                "every transition as a replayable script, and for trace validation of executions of the real library"},
+            {"name": "tlapm", "path": "/opt/veriftools/tlapm/bin/tlapm", "serves_properties": ["C19"],
+             "kind_free_text": "TLA+ proof system; checks spec/WaveformProofs.tla (the waveform-extent arithmetic for all naturals)"},
+            {"name": "apalache", "path": "/opt/veriftools/apalache/bin/apalache-mc", "serves_properties": ["C19"],
+             "kind_free_text": "symbolic model checker; validates waveform-extent results beyond TLC's 31-bit integers"},
         ],
         "checks": checks,
         "notes": "All checks: tools/check <ID> [--tier quick|thorough]; specs in spec/, harness in harness/, known findings in "
